@@ -316,7 +316,7 @@ def roles(ctx):
     g = th['V_BIN']
     want = ["self.buf('(')", 'self.accept(one(inst).V_VAL[802]())', "self.buf(' ', inst.Operator, ' ')",
             'self.accept(one(inst).V_VAL[803]())', "self.buf(')')"]
-    r.check(pm.match(want, body_without_doc(g)) is not None, 'V_BIN is generated as ( <R802> operator <R803> )', g, construct=TG + '.accept_V_BIN',
+    r.check(pm.match_canon(want, body_without_doc(g)) is not None, 'V_BIN is generated as ( <R802> operator <R803> )', g, construct=TG + '.accept_V_BIN',
             key='gen-binop', msg='accept_V_BIN does not emit "(" <R802 operand> operator <R803 operand> ")"')
     ai_pb = repo.func(AP + '.accept_AssignmentNode')
     ok = pm.contains('_R = self.accept(node.expression)', ai_pb) and pm.contains('_L = self.accept(node.variable_access)', ai_pb)
@@ -375,9 +375,9 @@ def literals(ctx):
                 msg='encoding pair broken (%s): %s must contain `%s` and %s must contain `%s`' % (what, wq, wpat, rq, rpat))
     # statement separator and block structure
     f = repo.func(tg + '.accept_ACT_SMT')
-    r.check(pm.match(['self.accept(subtype(inst, 603))', "self.buf_linebreak(';')"], body_without_doc(f)) is not None,
+    r.check(pm.match_canon(['self.accept(subtype(inst, 603))', "self.buf_linebreak(';')"], body_without_doc(f)) is not None,
             'a statement is its R603 subtype followed by ";"', f, construct=tg + '.accept_ACT_SMT', key='stmt-sep',
             msg='accept_ACT_SMT is not `accept(subtype over R603)` followed by ";"')
     f = repo.func(tg + '.accept_V_VAL')
-    r.check(pm.match(['self.accept(subtype(inst, 801))'], body_without_doc(f)) is not None, 'a value is generated by its R801 subtype', f,
+    r.check(pm.match_canon(['self.accept(subtype(inst, 801))'], body_without_doc(f)) is not None, 'a value is generated by its R801 subtype', f,
             construct=tg + '.accept_V_VAL', key='val-sub', msg='accept_V_VAL does not dispatch on the R801 subtype')
